@@ -33,7 +33,7 @@ CHECKS = {
         rapid("e2e", "TestC03Forks", 640, 32000, qs=8, ts=16, timeout=1200, ttimeout=14000, replay="TestC03ForksReplay"),
     ]),
     "C04": dict(tests=[
-        rapid("e2e", "TestC04", 160, 9600, qs=16, ts=16, timeout=1200, ttimeout=14000, replay="TestC04Replay"),
+        rapid("e2e", "TestC04", 320, 9600, qs=16, ts=16, timeout=1200, ttimeout=14000, replay="TestC04Replay"),
         dict(pkg="e2e", test="TestC04AllPositions", kind="rapid", replay="TestC04AllPositionsReplay", thorough_only=True,
              quick=dict(checks=0, shards=0), thorough=dict(checks=1600, shards=16, timeout=14000)),
     ]),
